@@ -19,6 +19,9 @@ enum { mo_relaxed = 0, mo_consume = 1, mo_acquire = 2, mo_release = 3, mo_acq_re
 #define OLD(x) __CPROVER_old(x)
 #define VF_CANARY(tag) __CPROVER_assert(0, "VF_CANARY reachable: " tag)
 
+/* kinds of atomic writes reported to the rely/guarantee hooks (rg_atomic.h) */
+enum { RG_STORE, RG_XCHG, RG_CAS, RG_ADD, RG_SUB, RG_OR, RG_AND };
+
 _Bool nondet_bool(void);
 unsigned long nondet_ulong(void);
 unsigned nondet_uint(void);
